@@ -298,3 +298,10 @@ def run(ctx):
     ctx.check({pin_f, chk_f} <= compared, "eq-covers-pinned-checkers",
               "Board equality does not compare both derived fields (compared: %s)" % sorted(compared), loc(eqb),
               sample={"compared fields": sorted(compared)})
+    # the scans read placement through the position-state writers (C10) and mean what the specification says only if
+    # the ray / between / leaper look-ups equal geometry (C05)
+    from . import c05, c10
+    expl_ = ctx.explanation
+    c05.run_lookups(ctx)
+    c10.run(ctx)
+    ctx.explanation = expl_
